@@ -70,6 +70,25 @@ REQUIRE = {  # about 1/20 of what one quick run observes on an idle machine (the
     "arrow_entered_decor_entry_row:pile:up": 4,
     "arrow_entered_decor_entry_row:cols:left": 2,
     "arrow_entered_decor_entry_row:cols:right": 3,
+    "translating_leaves_built": 500,
+    "xlate_offers": 60,
+    "xlate:arrow->unmapped": 15,
+    "xlate:other-command->arrow": 10,
+    "xlate_parent:pile": 10,
+    "xlate_parent:cols": 8,
+    "xlate_parent:grid": 8,
+    "xlate_parent:list": 6,
+    "xlate_parent:frame": 1,
+    "clause:key_translated_to_unmapped_unchanged": 15,
+    "clause:child_translated_arrow_acted_on": 12,
+    "xlate_arrow_expect:move": 3,
+    "custom_cmap_histories": 50,
+    "cmap_route:global": 8,
+    "cmap_route:copy": 5,
+    "cmap_route:copy_of_copy": 8,
+    "cmap_route:global_then_copy": 8,
+    "keys_sent_that_the_users_map_unbound": 30,
+    "keys_sent_that_the_users_map_rebound": 10,
     "kind:pile": 6000,
     "kind:cols": 5000,
     "kind:grid": 4500,
@@ -92,13 +111,13 @@ REQUIRE = {  # about 1/20 of what one quick run observes on an idle machine (the
 RULE = (
     "seeded recipes of Pile/Columns/GridFlow/Frame/Overlay/ListBox nestings (depth <= 4, box or flow sized, optional "
     "AttrMap/Padding/Filler/BoxAdapter decorations, 0..8 children, selectable/unselectable spy leaves with per-leaf "
-    "handled-key sets, leaves and containers whose selectability differs from their base widget's (WidgetDisable, AttrMap around "
+    "handled-key sets and key-translation tables (given k return k' != k), leaves and containers whose selectability differs from their base widget's (WidgetDisable, AttrMap around "
     "it, an AttrMap subclass and a WidgetWrap overriding selectable()), 15% directed [selectable, nested group with such a leaf on "
     "its first/last row, selectable] forms walked with the arrow keys of their axis) "
     "x op histories (20 quick / 40 thorough non-render ops) of navigation keys, characters, "
     "button-1 presses at random cells, valid/invalid focus_position and set_focus_path, contents insert/append/+=/"
     "del/pop()/pop(i)/remove/reverse/item and slice assignment/[:]=/clear/contents=/contents+= (half of them right after putting the focus on the first, last or middle child), Frame part replace/remove, Overlay part replace, "
-    "get_focus_path save/restore, renders at 4 sizes; a case = (tree recipe, op list); distinct = distinct such pairs; "
+    "get_focus_path save/restore, renders at 4 sizes; 30% of histories under a custom command map (bindings deleted / cleared / rebound, built through CommandMap.copy() routes); a case = (tree recipe, op list); distinct = distinct such pairs; "
     "non-trivial = at least one op applied to a tree with >= 1 container"
 )
 ASSUMES = [
@@ -110,6 +129,8 @@ ASSUMES = [
     "Frame body is never removed (documented as required); Frame focus_part is never constructed naming a missing part",
     "histories in which urwid emits a WidgetWarning are cut at that op and the op is not judged (library-defined input domain)",
     "leaf selectability is constant; a parent's selectable() is judged only right after ITS OWN contents were edited",
+    "custom command maps: the model's key -> command table is DEFAULTS plus the set/del/clear_command operations performed (never read back from urwid); the real map is built by one of four routes (edit the shared map; copy then edit; copy, edit, copy again; edit the shared map then copy) and installed as Widget._command_map (and, in 40%, as an instance attribute of every container)",
+    "a leaf may return a different non-None key than it was given: containers must act on the returned key; for a key translated INTO an arrow the reference is 'the nearest Pile (up/down) / Columns (left/right) above the leaf with a selectable sibling in that direction moves to the nearest such sibling and returns None' (no expectation through GridFlow / ListBox)",
     "an exception escaping render/keypress/mouse_event/a valid edit is by-catch, not a C08 verdict (the statement is about focus state): it is counted (bycatch:*), listed under bycatch_crashes_not_judged and ends the history; but after a valid edit that raised, the shadow is re-read from contents and every clause is evaluated once more on the state left behind (tag after:edit-raised)",
     "the last rendered root canvas is kept alive between ops (as a display does), so CanvasCache is effective and a focus change that is not followed by invalidation shows up in the next canvas",
     "'rendered with focus' is read from the finished canvas (per-leaf focus glyph) and from the leaves' render(focus=True) calls; both are compared with the focus path walked by hand after the render",
@@ -182,6 +203,7 @@ class World:
         self.hooks = hooks  # object with .offer(node)
         self.by_wid: dict[int, Node] = {}
         self.keep: list = []
+        self.cmap_obj = None
 
     def _reg(self, node, *ws):
         for w in ws:
@@ -202,9 +224,11 @@ class World:
             native = "box"
         if k == "leaf":
             if native == "flow":
-                base = FlowSpy(rec["sid"], rec["sel"], rec["keys"], self.log, rec["rows"])
+                base = FlowSpy(rec["sid"], rec["sel"], rec["keys"], self.log, rec["rows"], rec.get("xlate"))
             else:
-                base = BoxSpy(rec["sid"], rec["sel"], rec["keys"], self.log)
+                base = BoxSpy(rec["sid"], rec["sel"], rec["keys"], self.log, rec.get("xlate"))
+            if rec.get("xlate"):
+                self.hooks.c("translating_leaves_built")
         elif k == "pile":
             n.ch = [self.build(c) for c, _ in rec["ch"]]
             items = []
@@ -272,6 +296,8 @@ class World:
             self.hooks.c("decor_selectable_widgets_built")
         self._reg(n, base, w)
         if k != "leaf":
+            if self.cmap_obj is not None:
+                base._command_map = self.cmap_obj  # noqa: SLF001  (instance-attribute flavour, same map object)
             self._instrument(n)
         return n
 
@@ -343,7 +369,7 @@ class NullCtx:
 
 
 class Session:
-    def __init__(self, ctx, case):
+    def __init__(self, ctx, case, cmap_obj=None):
         from vmon.monitors.c08_spies import SpyLog
 
         self.ctx = ctx
@@ -366,9 +392,9 @@ class Session:
         self.deferred_ok = 0
         self.nops = 0
         self.cut = None
-        self.cmd = dict(DEFAULT_CMAP)
-        if case.get("cmap"):
-            self.cmd.update(EXTRA_CMAP)
+        spec = cmap_spec(case)
+        self.cmd = model_cmap(spec)
+        self.world.cmap_obj = cmap_obj if (spec and spec.get("inst")) else None
         try:
             self.root = self.guard("build", self.world.build, case["tree"])
         except Crash:
@@ -735,6 +761,27 @@ class Session:
                         )
         self.check_all("render")
 
+    def expected_arrow_mover(self, chain, cmd):
+        """reference for Pile/Columns arrow handling: walking up from the focus leaf, the first Pile (up/down) or Columns
+        (left/right) with a selectable sibling in that direction moves to the NEAREST such sibling.  GridFlow / ListBox on
+        the way: no expectation."""
+        for i in range(len(chain) - 2, -1, -1):
+            A, C = chain[i], chain[i + 1]
+            if A.kind in ("grid", "list"):
+                return "unknown", None, None
+            if (A.kind == "pile" and cmd in ("up", "down")) or (A.kind == "cols" and cmd in ("left", "right")):
+                idx = next((k for k, x in enumerate(A.ch) if x is C), None)
+                if idx is None:
+                    return "unknown", None, None
+                rng_ = range(idx - 1, -1, -1) if cmd in ("up", "left") else range(idx + 1, len(A.ch))
+                for j in rng_:
+                    try:
+                        if A.ch[j].w.selectable():
+                            return "move", A, j
+                    except Exception:  # noqa: BLE001
+                        return "unknown", None, None
+        return "none", None, None
+
     def op_key(self, key):
         rw = self.root.w
         if not self.guard("selectable", rw.selectable):
@@ -750,25 +797,53 @@ class Session:
         finally:
             self.in_key = False
         self.c("keys_sent")
+        if key in DEFAULT_CMAP and key not in self.cmd:
+            self.c("keys_sent_that_the_users_map_unbound")
+        elif key in self.cmd and self.cmd[key] != DEFAULT_CMAP.get(key):
+            self.c("keys_sent_that_the_users_map_rebound")
         after = self.snapshot()
         evs = [e for e in self.log.events if e[0] == "key"]
         self.c("leaf_key_events", len(evs))
         handled = any(e[3] for e in evs)
+        # the key the containers must act on is the key the focus child RETURNED (a leaf may translate 'tab' -> 'right')
+        eff = key
+        xl = None
+        if evs and not handled:
+            first = evs[0]
+            if first[2] != key:
+                self.v("C08|keypress|leaf-was-offered-a-different-key", f"root.keypress({key!r}) but leaf {first[1]} was offered {first[2]!r}")
+            if len(evs) == 1 and first[5] != first[2]:
+                xl = (first[2], first[5])
+                eff = first[5]
+                leafn = self.before_chain[-1] if self.before_chain[-1].sid == first[1] else None
+                par = self.parent_of(leafn) if leafn is not None else None
+
+                def kc(k):
+                    c = self.cmd.get(k)
+                    return "arrow" if c in ARROWS else ("unmapped" if c is None else "other-command")
+
+                self.c("xlate_offers")
+                self.c(f"xlate:{kc(key)}->{kc(eff)}")
+                self.c(f"xlate_parent:{par.kind if par else '?'}")
+        tag = "|after-child-translated-key" if xl else ""
         self.c("clause:key_return_value")
-        if res is not None and res != key:
-            self.v(f"C08|keypress|returned-a-different-key|{self.cmd.get(key, 'unmapped')}", f"keypress({key!r}) returned {res!r}")
+        if res is not None and res != eff:
+            self.v(f"C08|keypress|returned-a-different-key|{self.cmd.get(key, 'unmapped')}{tag}", f"keypress({key!r}) returned {res!r}" + (f" (focus leaf returned {eff!r})" if xl else ""))
         if handled:
             self.c("clause:key_handled_none")
             if res is not None:
                 who = [e[1] for e in evs if e[3]]
                 par = self.parent_of(next(x for x in all_nodes(self.root) if x.sid == who[0]))
                 self.v(f"C08|keypress|handled-key-came-back|parent:{KIND_NAME[par.kind] if par else '?'}", f"leaf {who} handled {key!r} but root.keypress returned {res!r}")
-        elif key not in self.cmd:
+        elif eff not in self.cmd:
             self.c("clause:key_unmapped_unchanged")
-            if res != key:
+            if xl:
+                self.c("clause:key_translated_to_unmapped_unchanged")
+            what = f"{key!r}" + (f" (returned by the focus leaf as {eff!r})" if xl else "")
+            if res != eff:
                 # the deepest container whose keypress changed the key (events are appended on return: first = deepest)
-                by = next((KIND_NAME[e[2]] for e in self.log.events if e[0] == "ckey" and e[4] != key), "?")
-                self.v(f"C08|keypress|unhandled-unmapped-key-swallowed|by:{by}", f"nobody handles {key!r} but keypress returned {res!r}; path {self.before_chain}")
+                by = next((KIND_NAME[e[2]] for e in self.log.events if e[0] == "ckey" and e[4] != eff), "?")
+                self.v(f"C08|keypress|unhandled-unmapped-key-swallowed|by:{by}{tag}", f"nobody handles {what} and it is not bound to a command, but keypress returned {res!r}; path {self.before_chain}")
             # a ListBox may complete a deferred focus change (initial "first selectable", set_focus_pending) on any key
             # and position the cursor inside its item via move_cursor_to_coords: ListBoxes and their descendants are exempt
             ul = self.under_list()
@@ -778,8 +853,28 @@ class Session:
                 self.c("key_listbox_deferred_focus_moved")
             if b2 != a2:
                 kinds = sorted({KIND_NAME[n.kind] for n in all_nodes(self.root) if n.kind != "leaf" and b2.get(n.cid) != a2.get(n.cid)})
-                self.v(f"C08|keypress|unhandled-unmapped-key-moved-focus|of:{'+'.join(kinds)}", f"{key!r}: focus positions {b2} -> {a2}")
+                self.v(f"C08|keypress|unhandled-unmapped-key-moved-focus|of:{'+'.join(kinds)}{tag}", f"{what}: focus positions {b2} -> {a2}")
+        elif xl and self.cmd.get(eff) in ARROWS and self.before_chain[-1].sid == evs[0][1]:
+            # the child turned the key INTO an arrow: the nearest Pile (up/down) / Columns (left/right) above it that has a
+            # selectable sibling in that direction must take it (reference: nearest selectable sibling); nobody else may
+            ecmd = self.cmd[eff]
+            verdict, A, j = self.expected_arrow_mover(self.before_chain, ecmd)
+            if verdict != "unknown":
+                self.c("clause:child_translated_arrow_acted_on")
+                self.c(f"xlate_arrow_expect:{verdict}")
+            if verdict == "move":
+                got = after.get(A.cid, (None,))[0]
+                if got != j or res is not None:
+                    self.v(
+                        f"C08|keypress|arrow-returned-by-child-not-acted-on|{KIND_NAME[A.kind]}|{ecmd}",
+                        f"{key!r}: focus leaf returned {eff!r}; {KIND_NAME[A.kind]} cid={A.cid} should move its focus {before[A.cid][0]!r} -> {j} and return None, "
+                        f"but its focus is {got!r} and root.keypress returned {res!r}",
+                    )
+            elif verdict == "none" and res != eff:
+                self.v(f"C08|keypress|arrow-returned-by-child-swallowed|{ecmd}", f"{key!r}: focus leaf returned {eff!r}, no Pile/Columns above it has a selectable sibling that way, yet keypress returned {res!r}")
         cmd = self.cmd.get(key)
+        if cmd not in ARROWS and self.cmd.get(eff) in ARROWS:
+            cmd = self.cmd.get(eff)
         if cmd in ARROWS and not handled:
             self.c("arrow_keys_judged")
         if cmd in ARROWS:
@@ -1250,6 +1345,102 @@ class Session:
 # ====================================================================== running one case
 
 
+URWID_CMD = {
+    "up": "cursor up", "down": "cursor down", "left": "cursor left", "right": "cursor right", "pgup": "cursor page up",
+    "pgdn": "cursor page down", "maxleft": "cursor max left", "maxright": "cursor max right", "next": "next selectable",
+    "prev": "prev selectable", "activate": "activate", "redraw": "redraw screen", "menu": "menu",
+}  # fmt: skip
+LEGACY_CMAP = {"route": "global", "split": 0, "inst": False, "ops": [["set", k, c] for k, c in EXTRA_CMAP.items()]}
+
+
+def cmap_spec(case):
+    c = case.get("cmap")
+    if not c:
+        return None
+    return LEGACY_CMAP if c is True else c
+
+
+def model_cmap(spec):
+    """the key -> command table the USER asked for: defaults, then the operations performed (delete means deleted);
+    never read back from urwid"""
+    t = dict(DEFAULT_CMAP)
+    for op in (spec or {}).get("ops", []):
+        if op[0] == "set":
+            t[op[1]] = op[2]
+        elif op[0] == "del":
+            t.pop(op[1], None)
+        elif op[0] == "clear":
+            for k in [k for k, v in t.items() if v == op[1]]:
+                del t[k]
+    return t
+
+
+def install_cmap(u, spec):
+    """perform the same operations on real CommandMap objects by the route named in the spec; returns the map the
+    containers must use (None = the shared global map)"""
+    if not spec:
+        return None
+    t = dict(DEFAULT_CMAP)  # only to skip deletes of keys that are not there (KeyError is documented dict behaviour)
+
+    def apply(m, ops):
+        for op in ops:
+            if op[0] == "set":
+                m[op[1]] = URWID_CMD[op[2]]
+                t[op[1]] = op[2]
+            elif op[0] == "del":
+                if op[1] in t:
+                    del m[op[1]]
+                    del t[op[1]]
+            else:
+                m.clear_command(URWID_CMD[op[1]])
+                for k in [k for k, v in t.items() if v == op[1]]:
+                    del t[k]
+
+    ops, k, route = spec["ops"], spec.get("split", 0), spec["route"]
+    g = u.command_map
+    if route == "global":
+        apply(g, ops)
+        return None
+    if route == "copy":
+        m = g.copy()
+        apply(m, ops)
+    elif route == "copy_of_copy":
+        m1 = g.copy()
+        apply(m1, ops[:k])
+        m = m1.copy()
+        apply(m, ops[k:])
+        if spec.get("thrice"):
+            m = m.copy()
+    else:  # "global_then_copy": the shared map is edited first, the widgets get a private copy of it
+        apply(g, ops[:k])
+        m = g.copy()
+        apply(m, ops[k:])
+    u.Widget._command_map = m  # noqa: SLF001  (what a `class MyPile(Pile): _command_map = m` does, for every class)
+    return m
+
+
+def gen_cmap(rng):
+    r = rng
+    if r.random() < 0.25:
+        return dict(LEGACY_CMAP, ops=[list(o) for o in LEGACY_CMAP["ops"]])
+    ops = []
+    for _ in range(r.randint(1, 4)):
+        x = r.random()
+        if x < 0.45:
+            ops.append(["del", r.choice(["down", "up", "left", "right", "down", "up", "page down", "home", "tab", "enter"])])
+        elif x < 0.60:
+            ops.append(["clear", r.choice(["up", "down", "left", "right", "pgup", "maxright"])])
+        else:
+            ops.append(["set", r.choice(["j", "k", "h", "l", "x", "down", "up", "f5"]), r.choice(["up", "down", "left", "right", "pgdn", "maxleft"])])
+    return {
+        "route": r.choice(["global", "copy", "copy_of_copy", "copy_of_copy", "global_then_copy", "global_then_copy"]),
+        "split": r.randint(0, len(ops)) if r.random() < 0.3 else len(ops),
+        "thrice": r.random() < 0.3,
+        "inst": r.random() < 0.4,
+        "ops": ops,
+    }
+
+
 class Env:
     """save / restore urwid global state around a case"""
 
@@ -1264,6 +1455,7 @@ class Env:
     def __exit__(self, *exc):
         u = self.u
         u.command_map.restore_defaults()
+        u.Widget._command_map = u.command_map  # noqa: SLF001
         u.CanvasCache.clear()
         if self.target:
             try:
@@ -1276,10 +1468,8 @@ class Env:
 def run_case(ctx, case, stop_after=None):
     """execute a case; returns the Session (violations in .viol)"""
     with Env() as env:
-        if case.get("cmap"):
-            for k, c in EXTRA_CMAP.items():
-                env.u.command_map[k] = "cursor " + c
-        s = Session(ctx, case)
+        cm = install_cmap(env.u, cmap_spec(case))
+        s = Session(ctx, case, cm)
         if s.root is None:
             return s
         s.log.on_key = s.leaf_offer
@@ -1324,7 +1514,16 @@ def gen_op(rng, gen, s: Session):
     x = rng.random()
     if s.pending_target is not None:
         x = 0.99
-    elif gen.navbias and rng.random() < 0.5:
+    elif rng.random() < 0.12:
+        # the focus leaf translates some keys: send one of them so that its parents see the translated key
+        try:
+            tip = s.chain()[-1]
+        except Exception:  # noqa: BLE001
+            tip = None
+        xt = tip.rec.get("xlate") if tip is not None and tip.kind == "leaf" else None
+        if xt and s.root.w.selectable():
+            return ["key", rng.choice(sorted(xt))]
+    if s.pending_target is None and gen.navbias and rng.random() < 0.5:
         # directed "form" trees: walk in and out of the nested group along its axis
         return ["key", rng.choice(gen.navbias * 4 + ["home", "end"])]
     if x < 0.38 and rng.random() < 0.8:
@@ -1468,15 +1667,16 @@ def gen_op(rng, gen, s: Session):
 def gen_history(ctx, rng, nops):
     """generate tree + ops online while executing them; returns (case, session)"""
     gen = Gen(rng, max_depth=4, cap=rng.choice([12, 25, 40, 60]))
-    case = {"tree": gen.root(), "ops": [], "cmap": rng.random() < 0.2}
+    case = {"tree": gen.root(), "ops": [], "cmap": gen_cmap(rng) if rng.random() < 0.3 else False}
     if gen.navbias:
         ctx.count("directed_form_histories")
     gen.cap = MAX_SID
     with Env() as env:
+        cm = install_cmap(env.u, cmap_spec(case))
         if case["cmap"]:
-            for k, c in EXTRA_CMAP.items():
-                env.u.command_map[k] = "cursor " + c
-        s = Session(ctx, case)
+            ctx.count("custom_cmap_histories")
+            ctx.count(f"cmap_route:{case['cmap']['route']}")
+        s = Session(ctx, case, cm)
         if s.root is None:
             return case, s
         s.log.on_key = s.leaf_offer
@@ -1563,6 +1763,10 @@ def _tree_variants(tree):
         if node.get("wrap") in ("attrmap", "padding", "disable_attrmap"):
             t = copy.deepcopy(tree)
             del get(t, path)["wrap"]
+            yield t
+        if k == "leaf" and node.get("xlate"):
+            t = copy.deepcopy(tree)
+            del get(t, path)["xlate"]
             yield t
         if k == "leaf" and (node["keys"] or node["rows"] > 1):
             t = copy.deepcopy(tree)
